@@ -499,6 +499,8 @@ class controller_MPI(Controller):
 
         elif self.params.predict_type == 'fine_only':
             # do a fine sweep only
+            # a predictor sweep is a first sweep: do not use the coefficients a variable preconditioner was left with
+            self.S.levels[0].sweep.updateVariableCoeffs(1)
             self.S.levels[0].sweep.update_nodes()
 
         # elif self.params.predict_type == 'libpfasst_style':
@@ -572,6 +574,8 @@ class controller_MPI(Controller):
                 return None
 
             # end this with a fine sweep
+            # a predictor sweep is a first sweep: do not use the coefficients a variable preconditioner was left with
+            self.S.levels[0].sweep.updateVariableCoeffs(1)
             self.S.levels[0].sweep.update_nodes()
 
         elif self.params.predict_type == 'fmg':
